@@ -19,7 +19,7 @@ logging.disable(logging.CRITICAL)
 
 
 def _wrapper_source(ob, sig, names):
-    call = f"_M.{ob.func}(*_P, {', '.join(names)})" if names else f"_M.{ob.func}(*_P)"
+    call = f"_M.{ob.func}(*_P, {', '.join(n + '=' + n for n in names)})" if names else f"_M.{ob.func}(*_P)"
     return (
         "from typing import *\n"
         f"import {ob.module} as _M\n"
